@@ -918,7 +918,7 @@ def run_impl(c):
         return method
 
     def record(obj, known):
-        oid = obj.id if obj.object_type == "directory" else obj.sha1_git
+        oid = obj.id if str(getattr(obj.object_type, "value", obj.object_type)) == "directory" else obj.sha1_git
         events.append([back.get(oid, -1), bool(known)])
 
     try:
